@@ -311,6 +311,60 @@ pub fn run(ctx: &Ctx) -> i32 {
             return 2;
         }
     }
+    // names that are not valid UTF-8 (legal on this platform): relative() works on components, never on text;
+    // judged with the navigation law alone (joining the result onto base and cleaning lexically yields path)
+    {
+        use std::ffi::OsString;
+        use std::os::unix::ffi::OsStringExt;
+        let names: [&[u8]; 3] = [b"a", b"caf\xE9", b"\xFF"];
+        let mut paths: Vec<Vec<u8>> = vec![b"/".to_vec()];
+        for x in names {
+            paths.push([b"/" as &[u8], x].concat());
+            for y in names {
+                paths.push([b"/" as &[u8], x, b"/", y].concat());
+            }
+        }
+        let lex_norm = |p: &Path| -> PathBuf {
+            let mut out = PathBuf::new();
+            for comp in p.components() {
+                match comp {
+                    std::path::Component::ParentDir => {
+                        out.pop();
+                    },
+                    std::path::Component::CurDir => {},
+                    other => out.push(other.as_os_str()),
+                }
+            }
+            out
+        };
+        let mut n = 0u64;
+        for p in &paths {
+            for b in &paths {
+                n += 1;
+                c.evals.fetch_add(1, Ordering::Relaxed);
+                let (pp, bp) = (PathBuf::from(OsString::from_vec(p.clone())), PathBuf::from(OsString::from_vec(b.clone())));
+                let r = catch_unwind(AssertUnwindSafe(|| sys::relative(&pp, &bp)));
+                let bad: Option<(String, String)> = match r {
+                    Err(e) => Some(("relative panic [non-UTF-8 names]".into(), format!("relative({:?}, {:?}) panicked: {}", pp, bp, panic_message(&e)))),
+                    Ok(Err(e)) => Some(("relative Err [non-UTF-8 names]".into(), format!("relative({:?}, {:?}) returned Err({})", pp, bp, e))),
+                    Ok(Ok(res)) => {
+                        if res.is_absolute() {
+                            Some(("relative absolute-result [non-UTF-8 names]".into(), format!("relative({:?}, {:?}) = {:?}", pp, bp, res)))
+                        } else if lex_norm(&bp.join(&res)) != lex_norm(&pp) {
+                            Some(("relative roundtrip-differs [non-UTF-8 names]".into(), format!("relative({:?}, {:?}) = {:?}; base joined with it cleans to {:?}", pp, bp, res, lex_norm(&bp.join(&res)))))
+                        } else {
+                            None
+                        }
+                    },
+                };
+                if let Some((sig, detail)) = bad {
+                    let (p2, b2) = (p.clone(), b.clone());
+                    vio(&sig, || detail, move || J::obj([("path_bytes_hex", J::s(p2.iter().map(|x| format!("{:02x}", x)).collect::<String>())), ("base_bytes_hex", J::s(b2.iter().map(|x| format!("{:02x}", x)).collect::<String>()))]));
+                }
+            }
+        }
+        bounds.push(format!("{} ordered pairs over names {{a, caf\\xE9, \\xFF}} (<=2 components, not valid UTF-8), navigation law only", n));
+    }
     // long paths: the number of '..' and of kept components grows with the depth; every depth up to 64 on
     // either side, against the root, a sibling chain and a chain sharing a prefix of every length
     {
@@ -462,6 +516,33 @@ fn replay(ctx: &Ctx, f: &std::path::Path) -> i32 {
         let ok = matches!(&r, Ok(rel) if !rel.is_absolute() && go_clean(&format!("{}/{}", parent, rel.to_string_lossy())) == tg);
         if ok {
             println!("holds on this case");
+            return 0;
+        }
+        println!("VIOLATION property={} replay={}", ctx.prop, f.display());
+        return 1;
+    }
+    if let (Some(ph), Some(bh)) = (case.get("path_bytes_hex").and_then(|x| x.as_str()), case.get("base_bytes_hex").and_then(|x| x.as_str())) {
+        use std::os::unix::ffi::OsStringExt;
+        let dec = |h: &str| -> PathBuf { PathBuf::from(std::ffi::OsString::from_vec((0..h.len() / 2).filter_map(|i| u8::from_str_radix(&h[2 * i..2 * i + 2], 16).ok()).collect())) };
+        let (pp, bp) = (dec(ph), dec(bh));
+        let r = catch_unwind(AssertUnwindSafe(|| sys::relative(&pp, &bp)));
+        println!("replay C16 (non-UTF-8 names) path={:?} base={:?}: {:?}", pp, bp, r.as_ref().map(|x| x.as_ref().map_err(|e| e.to_string())).map_err(|_| "panic"));
+        let norm = |p: &Path| -> PathBuf {
+            let mut out = PathBuf::new();
+            for comp in p.components() {
+                match comp {
+                    std::path::Component::ParentDir => {
+                        out.pop();
+                    },
+                    std::path::Component::CurDir => {},
+                    other => out.push(other.as_os_str()),
+                }
+            }
+            out
+        };
+        let ok = matches!(&r, Ok(Ok(res)) if !res.is_absolute() && norm(&bp.join(res)) == norm(&pp));
+        if ok {
+            println!("holds");
             return 0;
         }
         println!("VIOLATION property={} replay={}", ctx.prop, f.display());
